@@ -63,6 +63,9 @@ const STMTS: &[(&str, &str)] = &[
     ("detach_delete", "MATCH (n:L) DETACH DELETE n"),
     ("merge_return", "MERGE (n:L {k: 1}) RETURN n"),
     ("merge", "MERGE (n:L {k: 10})"),
+    // the same node written once per row with a row-dependent value and handed back in every row:
+    // the LAST row's snapshot is the acknowledged state
+    ("unwind_set_return", "UNWIND [1, 2, 3] AS i MATCH (n:L) SET n.c = i RETURN n"),
 ];
 
 #[derive(Clone, Debug, PartialEq, Eq, Hash, PartialOrd, Ord)]
@@ -548,7 +551,7 @@ fn http_query(port: u16, stmt: &str) -> Result<(u16, String), String> {
 }
 
 const DUMP_QUERIES: &[&str] = &[
-    "MATCH (n) RETURN id(n), n.k, n.j ORDER BY id(n)",
+    "MATCH (n) RETURN id(n), n.k, n.j, n.c ORDER BY id(n)",
     "MATCH (n:L) RETURN count(n)",
     "MATCH (n:L2) RETURN count(n)",
     "MATCH (a)-[r]->(b) RETURN id(a), type(r), id(b), r.w ORDER BY id(a), id(b)",
@@ -637,7 +640,7 @@ fn main() {
             cleanup_own_dirs();
             return;
         }
-        let m = M { kinds: if ctx.quick() { vec![0, 1, 2, 3, 6, 7, 8, 9, 10, 11, 13, 15] } else { (0..STMTS.len()).collect() } };
+        let m = M { kinds: if ctx.quick() { vec![0, 1, 2, 3, 6, 7, 8, 9, 10, 11, 13, 15, 16] } else { (0..STMTS.len()).collect() } };
         let mut machinery: Option<String> = None;
         let t_explore = Instant::now();
         let stats = hx::explore(&m, depth, 200_000, |v| {
@@ -651,7 +654,7 @@ fn main() {
             cleanup_own_dirs();
             ctx.machinery(&e);
         }
-        hx::report(ctx, &stats, "up to 2 (quick) / 3 (thorough) statements, each through the RESP or the HTTP front end (one shared store), of 16 kinds (quick: 12 of them) (CREATE node / path with and without RETURN, MATCH..CREATE relationship, SET property / label, REMOVE property, DELETE, DETACH DELETE, MERGE; with and without RETURN of the written entity); a restart with the mirrored start_server recovery after every acknowledged statement");
+        hx::report(ctx, &stats, "up to 2 (quick) / 3 (thorough) statements, each through the RESP or the HTTP front end (one shared store), of 17 kinds (quick: 13 of them) (CREATE node / path with and without RETURN, MATCH..CREATE relationship, SET property / label, REMOVE property, DELETE, DETACH DELETE, MERGE; with and without RETURN of the written entity); a restart with the mirrored start_server recovery after every acknowledged statement");
 
         let explore_s = t_explore.elapsed().as_secs_f64();
         let t_bind = Instant::now();
